@@ -516,5 +516,1131 @@ theorem runEncrypt_spec (P : Prims) (rnd : Rand) (w : World) (inf : Option Str) 
                 exact ⟨input, ks, rkey, rpk, sk, spk, epk, rfl, rfl, rfl, hg, hd, hu, rfl,
                   runEncrypt_path hsf hi hk hg hd hu he⟩
 
+/-! ### the cryptographic calls as the CLI makes them (unscripted source and sink), in terms of the pure level -/
+
+/-- where the bytes go once at least one `write`/`flush` call was made: the named file is created/truncated and holds
+    exactly these bytes, or they are on stdout -/
+def delivered (w : World) (outf : Option Str) (bytes : Bytes) : World × Bytes :=
+  match outf with
+  | some q => (w.setFile q bytes, [])
+  | none => (w, bytes)
+
+theorem deliver_of_flushed (w : World) (outf : Option Str) (k : Snk) (h : 1 ≤ k.flushes) :
+    deliver w outf k = delivered w outf k.out := by
+  cases outf with
+  | none => rfl
+  | some q => exact deliver_flushed w q k h
+
+theorem keyDecryptIO_plain (P : Prims) (sk pk input : Bytes) :
+    ∃ s' k', keyDecryptIO P sk pk { inp := input } {} = ((keyDecrypt P sk pk input).2.1, s', k', (keyDecrypt P sk pk input).2.2) ∧
+      k'.out = (keyDecrypt P sk pk input).1.flatten ∧ k'.flushes = (keyDecrypt P sk pk input).1.length ∧
+      ((keyDecrypt P sk pk input).1 = [] → k' = {}) ∧
+      ((keyDecrypt P sk pk input).2.1 = .ok → (keyDecrypt P sk pk input).1 ≠ [] ∧ ∃ spk, (keyDecrypt P sk pk input).2.2 = some spk) := by
+  rcases hIO : keyDecryptIO P sk pk { inp := input } {} with ⟨res, s', k', snd⟩
+  obtain ⟨h1, h2, h3, h4, h5, h6⟩ := keyDecryptIO_calls P sk pk { inp := input } {} (Src.plain_faultFree input) Snk.plain_benign
+    hIO (writes := (keyDecrypt P sk pk input).1) (pres := (keyDecrypt P sk pk input).2.1)
+    (psender := (keyDecrypt P sk pk input).2.2) rfl
+  exact ⟨s', k', by rw [h1, h2], by simpa using h3, by simpa using h4, h5, h6⟩
+
+theorem passDecryptIO_plain (P : Prims) (pw input : Bytes) :
+    ∃ s' k', passDecryptIO P pw { inp := input } {} = ((passDecrypt P pw input).2, s', k') ∧
+      k'.out = (passDecrypt P pw input).1.flatten ∧ k'.flushes = (passDecrypt P pw input).1.length ∧
+      ((passDecrypt P pw input).1 = [] → k' = {}) ∧
+      ((passDecrypt P pw input).2 = .ok → (passDecrypt P pw input).1 ≠ []) := by
+  rcases hIO : passDecryptIO P pw { inp := input } {} with ⟨res, s', k'⟩
+  obtain ⟨h1, h3, h4, h5, h6⟩ := passDecryptIO_calls P pw { inp := input } {} (Src.plain_faultFree input) Snk.plain_benign
+    hIO (writes := (passDecrypt P pw input).1) (pres := (passDecrypt P pw input).2) rfl
+  exact ⟨s', k', by rw [h1], by simpa using h3, by simpa using h4, h5, h6⟩
+
+/-- **the end of `decrypt` in terms of the pure `key_decrypt`** -/
+theorem decryptFinish_pure (P : Prims) (w : World) (outf : Option Str) (ks : List Keyring.Key) (sk pk input : Bytes)
+    {ws : List Bytes} {pres : Res} {psnd : Option Bytes} (hP : keyDecrypt P sk pk input = (ws, pres, psnd)) :
+    (ws = [] → pres ≠ .ok ∧ decryptFinish w outf ks (keyDecryptIO P sk pk { inp := input } {}) = fail w (.crypto pres)) ∧
+    (ws ≠ [] → pres ≠ .ok → decryptFinish w outf ks (keyDecryptIO P sk pk { inp := input } {}) =
+      { exit := 1, world := (delivered w outf ws.flatten).1, stdout := (delivered w outf ws.flatten).2,
+        err := some (.crypto pres) }) ∧
+    (pres = .ok → ws ≠ [] ∧ ∃ spk, psnd = some spk ∧ decryptFinish w outf ks (keyDecryptIO P sk pk { inp := input } {}) =
+      { exit := 0, world := (delivered w outf ws.flatten).1, stdout := (delivered w outf ws.flatten).2,
+        sender := senderOf ks (some spk) }) := by
+  obtain ⟨s', k', hIO, ho, hf, hnil, hok⟩ := keyDecryptIO_plain P sk pk input
+  rw [hP] at hIO ho hf hnil hok
+  simp only at hIO ho hf hnil hok
+  rw [hIO]
+  refine ⟨fun h => ?_, fun h hne => ?_, fun h => ?_⟩
+  · have hne : pres ≠ .ok := fun h' => (hok h').1 h
+    refine ⟨hne, ?_⟩
+    rw [hnil h]
+    simp only [decryptFinish, if_neg hne, deliver_init]
+    rfl
+  · have hfl : 1 ≤ k'.flushes := by
+      rw [hf]; cases ws with
+      | nil => exact absurd rfl h
+      | cons _ _ => simp
+    simp only [decryptFinish, if_neg hne, deliver_of_flushed w outf k' hfl, ho]
+  · obtain ⟨hne, spk, hspk⟩ := hok h
+    have hfl : 1 ≤ k'.flushes := by
+      rw [hf]; cases ws with
+      | nil => exact absurd rfl hne
+      | cons _ _ => simp
+    refine ⟨hne, spk, hspk, ?_⟩
+    simp only [decryptFinish, h, if_true, deliver_of_flushed w outf k' hfl, ho, hspk]
+
+/-- **the end of `password decrypt` in terms of the pure `pass_decrypt`** -/
+theorem passDecryptFinish_pure (P : Prims) (w : World) (outf : Option Str) (pw input : Bytes)
+    {ws : List Bytes} {pres : Res} (hP : passDecrypt P pw input = (ws, pres)) :
+    (ws = [] → pres ≠ .ok ∧ streamFinish w outf (passDecryptIO P pw { inp := input } {}) = fail w (.crypto pres)) ∧
+    (ws ≠ [] → pres ≠ .ok → streamFinish w outf (passDecryptIO P pw { inp := input } {}) =
+      { exit := 1, world := (delivered w outf ws.flatten).1, stdout := (delivered w outf ws.flatten).2,
+        err := some (.crypto pres) }) ∧
+    (pres = .ok → ws ≠ [] ∧ streamFinish w outf (passDecryptIO P pw { inp := input } {}) =
+      { exit := 0, world := (delivered w outf ws.flatten).1, stdout := (delivered w outf ws.flatten).2 }) := by
+  obtain ⟨s', k', hIO, ho, hf, hnil, hok⟩ := passDecryptIO_plain P pw input
+  rw [hP] at hIO ho hf hnil hok
+  simp only at hIO ho hf hnil hok
+  rw [hIO]
+  refine ⟨fun h => ?_, fun h hne => ?_, fun h => ?_⟩
+  · have hne : pres ≠ .ok := fun h' => (hok h') h
+    refine ⟨hne, ?_⟩
+    rw [hnil h]
+    simp only [streamFinish, if_neg hne, deliver_init]
+    rfl
+  · have hfl : 1 ≤ k'.flushes := by
+      rw [hf]; cases ws with
+      | nil => exact absurd rfl h
+      | cons _ _ => simp
+    simp only [streamFinish, if_neg hne, deliver_of_flushed w outf k' hfl, ho]
+  · have hne := hok h
+    have hfl : 1 ≤ k'.flushes := by
+      rw [hf]; cases ws with
+      | nil => exact absurd rfl hne
+      | cons _ _ => simp
+    refine ⟨hne, ?_⟩
+    simp only [streamFinish, h, if_true, deliver_of_flushed w outf k' hfl, ho]
+
+open EncIO Generated in
+/-- **the end of `encrypt`**: either the key exchange is refused (an all-zero DH output) and nothing at all happened, or the
+    command succeeds and delivers the pure ciphertext for the read schedule of the input -/
+theorem encryptFinish_pure (P : Prims) (w : World) (outf : Option Str) (s spk rs e epk pk input : Bytes) :
+    ((P.dh e rs = none ∨ P.dh s rs = none) ∧
+      streamFinish w outf (keyEncryptIO P s spk rs e epk pk { inp := input } {}) = fail w (.crypto .other)) ∨
+    (¬ (P.dh e rs = none ∨ P.dh s rs = none) ∧
+      (keyEncrypt P s spk rs e epk pk (Src.reads chunkSize { inp := input })).2 = .ok ∧
+      streamFinish w outf (keyEncryptIO P s spk rs e epk pk { inp := input } {}) =
+        { exit := 0, world := (delivered w outf (keyEncrypt P s spk rs e epk pk (Src.reads chunkSize { inp := input })).1).1,
+          stdout := (delivered w outf (keyEncrypt P s spk rs e epk pk (Src.reads chunkSize { inp := input })).1).2 }) := by
+  cases hw : Noise.writeMessage P encPrologue s spk rs e epk pk with
+  | error err =>
+    left
+    have hdh := (Noise.writeMessage_error_iff P encPrologue s spk rs e epk pk).mp ⟨err, hw⟩
+    refine ⟨hdh, ?_⟩
+    rw [keyEncryptIO_error P s spk rs e epk pk _ _ hw]
+    simp only [streamFinish, deliver_init]
+    rfl
+  | ok mh =>
+    obtain ⟨msg, hh⟩ := mh
+    right
+    have hdh : ¬ (P.dh e rs = none ∨ P.dh s rs = none) := by
+      intro h
+      obtain ⟨err, he⟩ := (Noise.writeMessage_error_iff P encPrologue s spk rs e epk pk).mpr h
+      rw [hw] at he; cases he
+    obtain ⟨h1, h2, h3⟩ := htc_calls P.aead (P.hkdfFile pk hh) [] chunkSize gen_chunkSize_pos encPrologue msg
+      { inp := input } {} (Src.plain_faultFree input) Snk.plain_benign
+    rw [keyEncryptIO_ok P s spk rs e epk pk _ _ hw, keyEncrypt_ok P s spk rs e epk pk _ hw]
+    refine ⟨hdh, ?_, ?_⟩
+    · rw [encryptChunks_reads]
+    · simp only [streamFinish, h1, if_true, deliver_of_flushed w outf _ h3, h2, List.nil_append]
+
+open EncIO Generated in
+/-- **the end of `password encrypt`**: always succeeds and delivers the pure ciphertext -/
+theorem passEncryptFinish_pure (P : Prims) (w : World) (outf : Option Str) (pw salt input : Bytes) :
+    (passEncrypt P pw salt (Src.reads chunkSize { inp := input })).2 = .ok ∧
+    streamFinish w outf (passEncryptIO P pw salt { inp := input } {}) =
+      { exit := 0, world := (delivered w outf (passEncrypt P pw salt (Src.reads chunkSize { inp := input })).1).1,
+        stdout := (delivered w outf (passEncrypt P pw salt (Src.reads chunkSize { inp := input })).1).2 } := by
+  obtain ⟨h1, h2, h3⟩ := htc_calls P.aead (P.kdf pw salt) encPassMagic chunkSize gen_chunkSize_pos encPassMagic salt
+    { inp := input } {} (Src.plain_faultFree input) Snk.plain_benign
+  rw [passEncryptIO_eq, passEncrypt_eq]
+  refine ⟨?_, ?_⟩
+  · rw [encryptChunks_reads]
+  · simp only [streamFinish, h1, if_true, deliver_of_flushed w outf _ h3, h2, List.nil_append]
+
+/-! ### exit status and error report agree -/
+
+/-- exit status 0 without an error report, or exit status 1 with one -/
+def Outcome.wellReported (o : Outcome) : Prop := (o.exit = 0 ∧ o.err = none) ∨ (o.exit = 1 ∧ o.err.isSome = true)
+
+theorem wellReported_fail (w : World) (c : Err) : (fail w c).wellReported := Or.inr ⟨rfl, rfl⟩
+
+theorem wellReported_decryptFinish (w : World) (outf : Option Str) (ks : List Keyring.Key) (r : Res × Src × Snk × Option Bytes) :
+    (decryptFinish w outf ks r).wellReported := by
+  unfold decryptFinish
+  split
+  · exact Or.inl ⟨rfl, rfl⟩
+  · exact Or.inr ⟨rfl, rfl⟩
+
+theorem wellReported_streamFinish (w : World) (outf : Option Str) (r : Res × Src × Snk) :
+    (streamFinish w outf r).wellReported := by
+  unfold streamFinish
+  split
+  · exact Or.inl ⟨rfl, rfl⟩
+  · exact Or.inr ⟨rfl, rfl⟩
+
+theorem decryptFinish_exit (w : World) (outf : Option Str) (ks : List Keyring.Key) (r : Res × Src × Snk × Option Bytes) :
+    (decryptFinish w outf ks r).exit = 0 ↔ r.1 = .ok := by
+  unfold decryptFinish
+  split
+  · rename_i h; simp [h]
+  · rename_i h; simp [h]
+
+theorem streamFinish_exit (w : World) (outf : Option Str) (r : Res × Src × Snk) :
+    (streamFinish w outf r).exit = 0 ↔ r.1 = .ok := by
+  unfold streamFinish
+  split
+  · rename_i h; simp [h]
+  · rename_i h; simp [h]
+
+theorem wellReported_run (P : Prims) (rnd : Rand) (w : World) (req : Request) : (run P rnd w req).wellReported := by
+  cases req with
+  | help => exact Or.inl ⟨rfl, rfl⟩
+  | version => exact Or.inl ⟨rfl, rfl⟩
+  | usageError => exact wellReported_fail w _
+  | encrypt i t f o k e =>
+    show (runEncrypt P rnd w i t f o k e).wellReported
+    rcases runEncrypt_spec P rnd w i t f o k e with ⟨c, _, h⟩ | ⟨_, _, _, _, _, _, _, _, _, _, _, _, _, _, h⟩
+    · rw [h]; exact wellReported_fail w c
+    · rw [h]; exact wellReported_streamFinish _ _ _
+  | decrypt i t o k e =>
+    show (runDecrypt P w i t o k e).wellReported
+    rcases runDecrypt_spec P w i t o k e with ⟨c, _, h⟩ | ⟨_, _, _, _, _, _, _, _, h⟩
+    · rw [h]; exact wellReported_fail w c
+    · rw [h]; exact wellReported_decryptFinish _ _ _ _
+  | passEncrypt i o e =>
+    show (runPassEncrypt P rnd w i o e).wellReported
+    rcases runPassEncrypt_spec P rnd w i o e with ⟨c, _, h⟩ | ⟨_, _, _, _, _, h⟩
+    · rw [h]; exact wellReported_fail w c
+    · rw [h]; exact wellReported_streamFinish _ _ _
+  | passDecrypt i o e =>
+    show (runPassDecrypt P w i o e).wellReported
+    rcases runPassDecrypt_spec P w i o e with ⟨c, _, h⟩ | ⟨_, _, _, _, _, h⟩
+    · rw [h]; exact wellReported_fail w c
+    · rw [h]; exact wellReported_streamFinish _ _ _
+  | keyGen o e =>
+    show (runKeyGen P rnd w o e).wellReported
+    unfold runKeyGen
+    split
+    · exact wellReported_fail w _
+    · split
+      · exact wellReported_fail w _
+      · split
+        · exact wellReported_fail w _
+        · split
+          · exact wellReported_fail w _
+          · split
+            · split <;> exact Or.inl ⟨rfl, rfl⟩
+            · exact Or.inl ⟨rfl, rfl⟩
+  | changePass s e =>
+    show (runChangePass rnd w s e).wellReported
+    unfold runChangePass
+    split
+    · exact wellReported_fail w _
+    · split
+      · exact wellReported_fail w _
+      · split
+        · exact wellReported_fail w _
+        · split
+          · exact wellReported_fail w _
+          · exact Or.inl ⟨rfl, rfl⟩
+  | extractPub s e =>
+    show (runExtractPub P w s e).wellReported
+    unfold runExtractPub
+    split
+    · exact wellReported_fail w _
+    · split
+      · exact wellReported_fail w _
+      · split
+        · exact wellReported_fail w _
+        · split
+          · exact wellReported_fail w _
+          · exact Or.inl ⟨rfl, rfl⟩
+
+/-! ### the sender line -/
+
+theorem getNameFromKey_some {ks : List Keyring.Key} {s n : Str} (h : Keyring.getNameFromKey ks s = some n) :
+    ∃ key ∈ ks, key.pk = s ∧ key.name = n := by
+  unfold Keyring.getNameFromKey at h
+  cases hf : ks.find? (fun x => x.pk == s) with
+  | none => rw [hf] at h; simp at h
+  | some key =>
+    rw [hf] at h
+    simp only [Option.map_some, Option.some.injEq] at h
+    exact ⟨key, List.mem_of_find?_eq_some hf, by simpa using List.find?_some hf, h⟩
+
+theorem getNameFromKey_none {ks : List Keyring.Key} {s : Str} (h : Keyring.getNameFromKey ks s = none) :
+    ∀ key ∈ ks, key.pk ≠ s := by
+  unfold Keyring.getNameFromKey at h
+  simp only [Option.map_eq_none_iff, List.find?_eq_none] at h
+  intro key hk heq
+  exact h key hk (by simp [heq])
+
+/-- the sender line names a keyring entry whose public-key string is the encoding of the authenticated sender key, and
+    otherwise shows that encoding -/
+theorem senderOf_spec (ks : List Keyring.Key) (spk : Bytes) :
+    (∃ key ∈ ks, key.pk = Keyring.encodePk spk ∧ senderOf ks (some spk) = some (Sum.inl key.name)) ∨
+    ((∀ key ∈ ks, key.pk ≠ Keyring.encodePk spk) ∧ senderOf ks (some spk) = some (Sum.inr (Keyring.encodePk spk))) := by
+  cases h : Keyring.getNameFromKey ks (Keyring.encodePk spk) with
+  | none => right; exact ⟨getNameFromKey_none h, by simp [senderOf, h]⟩
+  | some n =>
+    left
+    obtain ⟨key, hk, h1, h2⟩ := getNameFromKey_some h
+    exact ⟨key, hk, h1, by simp [senderOf, h, h2]⟩
+
+/-! ### wiring: where the input comes from, where the keyring path comes from, where the output goes -/
+
+/-- same exit status, error class, sender line, stdout bytes, file system and environment -/
+def sameResult (o o' : Outcome) : Prop :=
+  o'.exit = o.exit ∧ o'.err = o.err ∧ o'.sender = o.sender ∧ o'.stdout = o.stdout ∧
+  o'.world.files = o.world.files ∧ o'.world.env = o.world.env
+
+theorem sameResult_fail (w w' : World) (c : Err) (hf : w'.files = w.files) (he : w'.env = w.env) :
+    sameResult (fail w c) (fail w' c) := ⟨rfl, rfl, rfl, rfl, hf, he⟩
+
+theorem deliver_congr (w w' : World) (outf : Option Str) (k : Snk) (hf : w'.files = w.files) (he : w'.env = w.env) :
+    (deliver w' outf k).2 = (deliver w outf k).2 ∧ (deliver w' outf k).1.files = (deliver w outf k).1.files ∧
+    (deliver w' outf k).1.env = (deliver w outf k).1.env := by
+  cases outf with
+  | none => exact ⟨rfl, hf, he⟩
+  | some q =>
+    simp only [deliver]
+    split
+    · exact ⟨rfl, hf, he⟩
+    · exact ⟨rfl, by simp only [World.setFile, hf], he⟩
+
+theorem sameResult_decryptFinish (w w' : World) (outf : Option Str) (ks : List Keyring.Key) (r : Res × Src × Snk × Option Bytes)
+    (hf : w'.files = w.files) (he : w'.env = w.env) :
+    sameResult (decryptFinish w outf ks r) (decryptFinish w' outf ks r) := by
+  obtain ⟨h1, h2, h3⟩ := deliver_congr w w' outf r.2.2.1 hf he
+  unfold decryptFinish
+  split
+  · exact ⟨rfl, rfl, rfl, h1, h2, h3⟩
+  · exact ⟨rfl, rfl, rfl, h1, h2, h3⟩
+
+theorem sameResult_streamFinish (w w' : World) (outf : Option Str) (r : Res × Src × Snk)
+    (hf : w'.files = w.files) (he : w'.env = w.env) :
+    sameResult (streamFinish w outf r) (streamFinish w' outf r) := by
+  obtain ⟨h1, h2, h3⟩ := deliver_congr w w' outf r.2.2 hf he
+  unfold streamFinish
+  split
+  · exact ⟨rfl, rfl, rfl, h1, h2, h3⟩
+  · exact ⟨rfl, rfl, rfl, h1, h2, h3⟩
+
+theorem openKeyring_congr (w w' : World) (kr : Option Str) (hf : w'.files = w.files) (he : w'.env = w.env) :
+    openKeyring w' kr = openKeyring w kr := by
+  simp only [openKeyring, World.getenv, World.file, hf, he]
+
+theorem askPass_congr (w w' : World) (b : Bool) (v : String) (he : w'.env = w.env) : askPass w' b v = askPass w b v := by
+  simp only [askPass, World.getenv, he]
+
+theorem unlockNamed_congr (w w' : World) (ks : List Keyring.Key) (n : Str) (b : Bool) (he : w'.env = w.env) :
+    unlockNamed w' ks n b = unlockNamed w ks n b := by
+  simp only [unlockNamed, askPass_congr w w' b _ he]
+
+/-- **`decrypt` only sees the input bytes**: two worlds with the same files and environment, two ways of naming the input
+    that yield the same bytes (or the same failure) and the same same-file verdict ⇒ same result -/
+theorem runDecrypt_congr_input (P : Prims) (w w' : World) (inf inf' : Option Str) (to : Str) (outf kr : Option Str) (e : Bool)
+    (hf : w'.files = w.files) (he : w'.env = w.env) (hsf : sameFile inf' outf = sameFile inf outf)
+    (hin : openInput w' inf' = openInput w inf) :
+    sameResult (runDecrypt P w inf to outf kr e) (runDecrypt P w' inf' to outf kr e) := by
+  have hkr := openKeyring_congr w w' kr hf he
+  cases hs : sameFile inf outf with
+  | true =>
+    have h1 : runDecrypt P w inf to outf kr e = fail w .sameFile := by simp [runDecrypt, hs]
+    have h2 : runDecrypt P w' inf' to outf kr e = fail w' .sameFile := by simp [runDecrypt, hsf, hs]
+    rw [h1, h2]; exact sameResult_fail w w' _ hf he
+  | false =>
+    rw [hs] at hsf
+    cases hi : openInput w inf with
+    | error c =>
+      have h1 : runDecrypt P w inf to outf kr e = fail w c := by simp [runDecrypt, hs, hi]
+      have h2 : runDecrypt P w' inf' to outf kr e = fail w' c := by simp [runDecrypt, hsf, hin, hi]
+      rw [h1, h2]; exact sameResult_fail w w' _ hf he
+    | ok input =>
+      cases hk : openKeyring w kr with
+      | error c =>
+        have h1 : runDecrypt P w inf to outf kr e = fail w c := by simp [runDecrypt, hs, hi, hk]
+        have h2 : runDecrypt P w' inf' to outf kr e = fail w' c := by simp [runDecrypt, hsf, hin, hi, hkr, hk]
+        rw [h1, h2]; exact sameResult_fail w w' _ hf he
+      | ok ks =>
+        have hun := unlockNamed_congr w w' ks to e he
+        cases hu : unlockNamed w ks to e with
+        | error c =>
+          have h1 : runDecrypt P w inf to outf kr e = fail w c := by simp [runDecrypt, hs, hi, hk, hu]
+          have h2 : runDecrypt P w' inf' to outf kr e = fail w' c := by simp [runDecrypt, hsf, hin, hi, hkr, hk, hun, hu]
+          rw [h1, h2]; exact sameResult_fail w w' _ hf he
+        | ok kp =>
+          obtain ⟨sk, pk⟩ := kp
+          rw [runDecrypt_path hs hi hk hu,
+            runDecrypt_path hsf (hin.trans hi) (hkr.trans hk) (hun.trans hu)]
+          exact sameResult_decryptFinish w w' outf ks _ hf he
+
+theorem runPassDecrypt_congr_input (P : Prims) (w w' : World) (inf inf' outf : Option Str) (e : Bool)
+    (hf : w'.files = w.files) (he : w'.env = w.env) (hsf : sameFile inf' outf = sameFile inf outf)
+    (hin : openInput w' inf' = openInput w inf) :
+    sameResult (runPassDecrypt P w inf outf e) (runPassDecrypt P w' inf' outf e) := by
+  have hap := askPass_congr w w' e "KESTREL_PASSWORD" he
+  cases hs : sameFile inf outf with
+  | true =>
+    have h1 : runPassDecrypt P w inf outf e = fail w .sameFile := by simp [runPassDecrypt, hs]
+    have h2 : runPassDecrypt P w' inf' outf e = fail w' .sameFile := by simp [runPassDecrypt, hsf, hs]
+    rw [h1, h2]; exact sameResult_fail w w' _ hf he
+  | false =>
+    rw [hs] at hsf
+    cases hi : openInput w inf with
+    | error c =>
+      have h1 : runPassDecrypt P w inf outf e = fail w c := by simp [runPassDecrypt, hs, hi]
+      have h2 : runPassDecrypt P w' inf' outf e = fail w' c := by simp [runPassDecrypt, hsf, hin, hi]
+      rw [h1, h2]; exact sameResult_fail w w' _ hf he
+    | ok input =>
+      cases hp : askPass w e with
+      | error c =>
+        have h1 : runPassDecrypt P w inf outf e = fail w c := by simp [runPassDecrypt, hs, hi, hp]
+        have h2 : runPassDecrypt P w' inf' outf e = fail w' c := by simp [runPassDecrypt, hsf, hin, hi, hap, hp]
+        rw [h1, h2]; exact sameResult_fail w w' _ hf he
+      | ok pw =>
+        rw [runPassDecrypt_path hs hi hp, runPassDecrypt_path hsf (hin.trans hi) (hap.trans hp)]
+        exact sameResult_streamFinish w w' outf _ hf he
+
+theorem runPassEncrypt_congr_input (P : Prims) (rnd : Rand) (w w' : World) (inf inf' outf : Option Str) (e : Bool)
+    (hf : w'.files = w.files) (he : w'.env = w.env) (hsf : sameFile inf' outf = sameFile inf outf)
+    (hin : openInput w' inf' = openInput w inf) :
+    sameResult (runPassEncrypt P rnd w inf outf e) (runPassEncrypt P rnd w' inf' outf e) := by
+  have hap := askPass_congr w w' e "KESTREL_PASSWORD" he
+  cases hs : sameFile inf outf with
+  | true =>
+    have h1 : runPassEncrypt P rnd w inf outf e = fail w .sameFile := by simp [runPassEncrypt, hs]
+    have h2 : runPassEncrypt P rnd w' inf' outf e = fail w' .sameFile := by simp [runPassEncrypt, hsf, hs]
+    rw [h1, h2]; exact sameResult_fail w w' _ hf he
+  | false =>
+    rw [hs] at hsf
+    cases hi : openInput w inf with
+    | error c =>
+      have h1 : runPassEncrypt P rnd w inf outf e = fail w c := by simp [runPassEncrypt, hs, hi]
+      have h2 : runPassEncrypt P rnd w' inf' outf e = fail w' c := by simp [runPassEncrypt, hsf, hin, hi]
+      rw [h1, h2]; exact sameResult_fail w w' _ hf he
+    | ok input =>
+      cases hp : askPass w e with
+      | error c =>
+        have h1 : runPassEncrypt P rnd w inf outf e = fail w c := by simp [runPassEncrypt, hs, hi, hp]
+        have h2 : runPassEncrypt P rnd w' inf' outf e = fail w' c := by simp [runPassEncrypt, hsf, hin, hi, hap, hp]
+        rw [h1, h2]; exact sameResult_fail w w' _ hf he
+      | ok pw =>
+        rw [runPassEncrypt_path hs hi hp, runPassEncrypt_path hsf (hin.trans hi) (hap.trans hp)]
+        exact sameResult_streamFinish w w' outf _ hf he
+
+theorem runEncrypt_congr_input (P : Prims) (rnd : Rand) (w w' : World) (inf inf' : Option Str) (to fr : Str)
+    (outf kr : Option Str) (e : Bool)
+    (hf : w'.files = w.files) (he : w'.env = w.env) (hsf : sameFile inf' outf = sameFile inf outf)
+    (hin : openInput w' inf' = openInput w inf) :
+    sameResult (runEncrypt P rnd w inf to fr outf kr e) (runEncrypt P rnd w' inf' to fr outf kr e) := by
+  have hkr := openKeyring_congr w w' kr hf he
+  cases hs : sameFile inf outf with
+  | true =>
+    have h1 : runEncrypt P rnd w inf to fr outf kr e = fail w .sameFile := by simp [runEncrypt, hs]
+    have h2 : runEncrypt P rnd w' inf' to fr outf kr e = fail w' .sameFile := by simp [runEncrypt, hsf, hs]
+    rw [h1, h2]; exact sameResult_fail w w' _ hf he
+  | false =>
+    rw [hs] at hsf
+    cases hi : openInput w inf with
+    | error c =>
+      have h1 : runEncrypt P rnd w inf to fr outf kr e = fail w c := by simp [runEncrypt, hs, hi]
+      have h2 : runEncrypt P rnd w' inf' to fr outf kr e = fail w' c := by simp [runEncrypt, hsf, hin, hi]
+      rw [h1, h2]; exact sameResult_fail w w' _ hf he
+    | ok input =>
+      cases hk : openKeyring w kr with
+      | error c =>
+        have h1 : runEncrypt P rnd w inf to fr outf kr e = fail w c := by simp [runEncrypt, hs, hi, hk]
+        have h2 : runEncrypt P rnd w' inf' to fr outf kr e = fail w' c := by simp [runEncrypt, hsf, hin, hi, hkr, hk]
+        rw [h1, h2]; exact sameResult_fail w w' _ hf he
+      | ok ks =>
+        cases hg : Keyring.getKey ks to with
+        | none =>
+          have h1 : runEncrypt P rnd w inf to fr outf kr e = fail w .keyNotFound := by simp [runEncrypt, hs, hi, hk, hg]
+          have h2 : runEncrypt P rnd w' inf' to fr outf kr e = fail w' .keyNotFound := by
+            simp [runEncrypt, hsf, hin, hi, hkr, hk, hg]
+          rw [h1, h2]; exact sameResult_fail w w' _ hf he
+        | some rkey =>
+          cases hd : Keyring.decodePk rkey.pk with
+          | error _ =>
+            have h1 : runEncrypt P rnd w inf to fr outf kr e = fail w .pkDecode := by simp [runEncrypt, hs, hi, hk, hg, hd]
+            have h2 : runEncrypt P rnd w' inf' to fr outf kr e = fail w' .pkDecode := by
+              simp [runEncrypt, hsf, hin, hi, hkr, hk, hg, hd]
+            rw [h1, h2]; exact sameResult_fail w w' _ hf he
+          | ok rpk =>
+            have hun := unlockNamed_congr w w' ks fr e he
+            cases hu : unlockNamed w ks fr e with
+            | error c =>
+              have h1 : runEncrypt P rnd w inf to fr outf kr e = fail w c := by simp [runEncrypt, hs, hi, hk, hg, hd, hu]
+              have h2 : runEncrypt P rnd w' inf' to fr outf kr e = fail w' c := by
+                simp [runEncrypt, hsf, hin, hi, hkr, hk, hg, hd, hun, hu]
+              rw [h1, h2]; exact sameResult_fail w w' _ hf he
+            | ok kp =>
+              obtain ⟨sk, spk⟩ := kp
+              cases hep : P.pub rnd.b with
+              | none =>
+                have h1 : runEncrypt P rnd w inf to fr outf kr e = fail w (.crypto .other) := by
+                  simp [runEncrypt, hs, hi, hk, hg, hd, hu, hep]
+                have h2 : runEncrypt P rnd w' inf' to fr outf kr e = fail w' (.crypto .other) := by
+                  simp [runEncrypt, hsf, hin, hi, hkr, hk, hg, hd, hun, hu, hep]
+                rw [h1, h2]; exact sameResult_fail w w' _ hf he
+              | some epk =>
+                rw [runEncrypt_path hs hi hk hg hd hu hep,
+                  runEncrypt_path hsf (hin.trans hi) (hkr.trans hk) hg hd (hun.trans hu) hep]
+                exact sameResult_streamFinish w w' outf _ hf he
+
+/-- **`decrypt` and the output option.** There is one sink `k` — empty if the command fails early, otherwise the sink of the
+    library call — one exit status, error class and sender line such that for EVERY admissible `-o` choice (none, or any file
+    other than the input) the command's effect is `deliver w outf k`. -/
+theorem runDecrypt_outf (P : Prims) (w : World) (inf : Option Str) (to : Str) (kr : Option Str) (e : Bool) :
+    ∃ (k : Snk) (x : Nat) (er : Option Err) (sd : Option (Sum Str Str)),
+      (∀ outf, sameFile inf outf = false → runDecrypt P w inf to outf kr e =
+        { exit := x, world := (deliver w outf k).1, stdout := (deliver w outf k).2, err := er, sender := sd }) ∧
+      (∀ input ks sk pk, openInput w inf = .ok input → openKeyring w kr = .ok ks → unlockNamed w ks to e = .ok (sk, pk) →
+        k = (keyDecryptIO P sk pk { inp := input } {}).2.2.1) := by
+  have early : ∀ c, (∀ outf, sameFile inf outf = false → runDecrypt P w inf to outf kr e = fail w c) →
+      ∃ (k : Snk) (x : Nat) (er : Option Err) (sd : Option (Sum Str Str)),
+        (∀ outf, sameFile inf outf = false → runDecrypt P w inf to outf kr e =
+          { exit := x, world := (deliver w outf k).1, stdout := (deliver w outf k).2, err := er, sender := sd }) := by
+    intro c hc
+    refine ⟨{}, 1, some c, none, fun outf hsf => ?_⟩
+    rw [hc outf hsf, deliver_init]; rfl
+  cases hi : openInput w inf with
+  | error c =>
+    obtain ⟨k, x, er, sd, h⟩ := early c (fun outf hsf => by simp [runDecrypt, hsf, hi])
+    exact ⟨k, x, er, sd, h, fun _ _ _ _ h' => by simp at h'⟩
+  | ok input =>
+    cases hk : openKeyring w kr with
+    | error c =>
+      obtain ⟨k, x, er, sd, h⟩ := early c (fun outf hsf => by simp [runDecrypt, hsf, hi, hk])
+      exact ⟨k, x, er, sd, h, fun _ _ _ _ _ h' => by simp at h'⟩
+    | ok ks =>
+      cases hu : unlockNamed w ks to e with
+      | error c =>
+        obtain ⟨k, x, er, sd, h⟩ := early c (fun outf hsf => by simp [runDecrypt, hsf, hi, hk, hu])
+        refine ⟨k, x, er, sd, h, fun _ ks' _ _ _ h1 h2 => ?_⟩
+        simp only [Except.ok.injEq] at h1; subst h1
+        rw [hu] at h2; simp at h2
+      | ok kp =>
+        obtain ⟨sk, pk⟩ := kp
+        by_cases hr : (keyDecryptIO P sk pk { inp := input } {}).1 = .ok
+        · refine ⟨(keyDecryptIO P sk pk { inp := input } {}).2.2.1, 0, none,
+            senderOf ks (keyDecryptIO P sk pk { inp := input } {}).2.2.2, fun outf hsf => ?_, ?_⟩
+          · rw [runDecrypt_path hsf hi hk hu]; simp only [decryptFinish, if_pos hr]
+          · intro input' ks' sk' pk' h1 h2 h3
+            simp only [Except.ok.injEq] at h1 h2; subst h1 h2
+            rw [hu] at h3; simp only [Except.ok.injEq, Prod.mk.injEq] at h3
+            obtain ⟨rfl, rfl⟩ := h3; rfl
+        · refine ⟨(keyDecryptIO P sk pk { inp := input } {}).2.2.1, 1,
+            some (.crypto (keyDecryptIO P sk pk { inp := input } {}).1), none, fun outf hsf => ?_, ?_⟩
+          · rw [runDecrypt_path hsf hi hk hu]; simp only [decryptFinish, if_neg hr]
+          · intro input' ks' sk' pk' h1 h2 h3
+            simp only [Except.ok.injEq] at h1 h2; subst h1 h2
+            rw [hu] at h3; simp only [Except.ok.injEq, Prod.mk.injEq] at h3
+            obtain ⟨rfl, rfl⟩ := h3; rfl
+
+/-- the same for the three other stream commands, whose shape is: preparatory steps that do not look at `-o`, then
+    `streamFinish` -/
+theorem outf_of_spec (w : World) (inf : Option Str) (f : Option Str → Outcome)
+    (h : (∃ c, ∀ outf, sameFile inf outf = false → f outf = fail w c) ∨
+         (∃ r : Res × Src × Snk, ∀ outf, sameFile inf outf = false → f outf = streamFinish w outf r)) :
+    ∃ (k : Snk) (x : Nat) (er : Option Err),
+      ∀ outf, sameFile inf outf = false → f outf =
+        { exit := x, world := (deliver w outf k).1, stdout := (deliver w outf k).2, err := er } := by
+  rcases h with ⟨c, hc⟩ | ⟨r, hr⟩
+  · refine ⟨{}, 1, some c, fun outf hsf => ?_⟩
+    rw [hc outf hsf, deliver_init]; rfl
+  · by_cases hok : r.1 = .ok
+    · exact ⟨r.2.2, 0, none, fun outf hsf => by rw [hr outf hsf]; simp only [streamFinish, if_pos hok]⟩
+    · exact ⟨r.2.2, 1, some (.crypto r.1), fun outf hsf => by rw [hr outf hsf]; simp only [streamFinish, if_neg hok]⟩
+
+theorem runPassDecrypt_outf (P : Prims) (w : World) (inf : Option Str) (e : Bool) :
+    ∃ (k : Snk) (x : Nat) (er : Option Err),
+      ∀ outf, sameFile inf outf = false → runPassDecrypt P w inf outf e =
+        { exit := x, world := (deliver w outf k).1, stdout := (deliver w outf k).2, err := er } := by
+  apply outf_of_spec
+  cases hi : openInput w inf with
+  | error c => left; exact ⟨c, fun outf hsf => by simp [runPassDecrypt, hsf, hi]⟩
+  | ok input =>
+    cases hp : askPass w e with
+    | error c => left; exact ⟨c, fun outf hsf => by simp [runPassDecrypt, hsf, hi, hp]⟩
+    | ok pw => right; exact ⟨_, fun outf hsf => runPassDecrypt_path hsf hi hp⟩
+
+theorem runPassEncrypt_outf (P : Prims) (rnd : Rand) (w : World) (inf : Option Str) (e : Bool) :
+    ∃ (k : Snk) (x : Nat) (er : Option Err),
+      ∀ outf, sameFile inf outf = false → runPassEncrypt P rnd w inf outf e =
+        { exit := x, world := (deliver w outf k).1, stdout := (deliver w outf k).2, err := er } := by
+  apply outf_of_spec
+  cases hi : openInput w inf with
+  | error c => left; exact ⟨c, fun outf hsf => by simp [runPassEncrypt, hsf, hi]⟩
+  | ok input =>
+    cases hp : askPass w e with
+    | error c => left; exact ⟨c, fun outf hsf => by simp [runPassEncrypt, hsf, hi, hp]⟩
+    | ok pw => right; exact ⟨_, fun outf hsf => runPassEncrypt_path hsf hi hp⟩
+
+theorem runEncrypt_outf (P : Prims) (rnd : Rand) (w : World) (inf : Option Str) (to fr : Str) (kr : Option Str) (e : Bool) :
+    ∃ (k : Snk) (x : Nat) (er : Option Err),
+      ∀ outf, sameFile inf outf = false → runEncrypt P rnd w inf to fr outf kr e =
+        { exit := x, world := (deliver w outf k).1, stdout := (deliver w outf k).2, err := er } := by
+  apply outf_of_spec
+  cases hi : openInput w inf with
+  | error c => left; exact ⟨c, fun outf hsf => by simp [runEncrypt, hsf, hi]⟩
+  | ok input =>
+    cases hk : openKeyring w kr with
+    | error c => left; exact ⟨c, fun outf hsf => by simp [runEncrypt, hsf, hi, hk]⟩
+    | ok ks =>
+      cases hg : Keyring.getKey ks to with
+      | none => left; exact ⟨.keyNotFound, fun outf hsf => by simp [runEncrypt, hsf, hi, hk, hg]⟩
+      | some rkey =>
+        cases hd : Keyring.decodePk rkey.pk with
+        | error _ => left; exact ⟨.pkDecode, fun outf hsf => by simp [runEncrypt, hsf, hi, hk, hg, hd]⟩
+        | ok rpk =>
+          cases hu : unlockNamed w ks fr e with
+          | error c => left; exact ⟨c, fun outf hsf => by simp [runEncrypt, hsf, hi, hk, hg, hd, hu]⟩
+          | ok kp =>
+            obtain ⟨sk, spk⟩ := kp
+            cases hep : P.pub rnd.b with
+            | none => left; exact ⟨.crypto .other, fun outf hsf => by simp [runEncrypt, hsf, hi, hk, hg, hd, hu, hep]⟩
+            | some epk => right; exact ⟨_, fun outf hsf => runEncrypt_path hsf hi hk hg hd hu hep⟩
+
+/-! ## §C  getopts: rendering a request as an argument vector, and parsing it back -/
+
+/-- how a request is spelled -/
+structure Style where
+  longNames : Bool      -- `--to` vs `-t` (options without a short name are always long)
+  alias : Bool          -- `enc` / `dec` / `pass` / `gen` vs the full command word
+  eqForm : Bool         -- `--to=bob` vs `--to bob`
+deriving DecidableEq, Repr
+
+/-- the option token: `--long`, or `-c` when short names are asked for and the option has one -/
+def optTok (st : Style) (o : OptSpec) : Str :=
+  if st.longNames then '-' :: '-' :: o.long
+  else match o.short with
+    | some c => ['-', c]
+    | none => '-' :: '-' :: o.long
+
+/-- `["--to","bob"]` / `["-t","bob"]` / `["--to=bob"]` / `["-t=bob"]`; a flag (`v = none`): `["--env-pass"]` -/
+def renderOpt (st : Style) (o : OptSpec) (v : Option Str) : List Str :=
+  match v with
+  | none => [optTok st o]
+  | some v => if st.eqForm then [optTok st o ++ '=' :: v] else [optTok st o, v]
+
+def renderOptional (st : Style) (o : OptSpec) : Option Str → List Str
+  | none => []
+  | some v => renderOpt st o (some v)
+
+def renderFlag (st : Style) (o : OptSpec) (b : Bool) : List Str := if b then renderOpt st o none else []
+
+def word (st : Style) (full short : String) : Str := if st.alias then str short else str full
+
+/-- argv WITHOUT the program name; the layout of the USAGE text of main.rs: command, input file, then the options in the
+    order `-t -f -o -k --env-pass` -/
+def render (st : Style) : Request → List Str
+  | .help => [str "--help"]
+  | .version => [if st.longNames then str "--version" else str "-v"]
+  | .usageError => [str "?"]
+  | .encrypt inf to fr outf kr e =>
+    word st "encrypt" "enc" :: (inf.toList ++ (renderOpt st optT (some to) ++ (renderOpt st optF (some fr) ++
+      (renderOptional st optO outf ++ (renderOptional st optK kr ++ (renderFlag st optE e ++ []))))))
+  | .decrypt inf to outf kr e =>
+    word st "decrypt" "dec" :: (inf.toList ++ (renderOpt st optT (some to) ++
+      (renderOptional st optO outf ++ (renderOptional st optK kr ++ (renderFlag st optE e ++ [])))))
+  | .keyGen outf e => str "key" :: word st "generate" "gen" :: (renderOptional st optO outf ++ (renderFlag st optE e ++ []))
+  | .changePass sk e => str "key" :: str "change-pass" :: sk :: (renderFlag st optE e ++ [])
+  | .extractPub sk e => str "key" :: str "extract-pub" :: sk :: (renderFlag st optE e ++ [])
+  | .passEncrypt inf outf e =>
+    word st "password" "pass" :: word st "encrypt" "enc" :: (inf.toList ++ (renderOptional st optO outf ++ (renderFlag st optE e ++ [])))
+  | .passDecrypt inf outf e =>
+    word st "password" "pass" :: word st "decrypt" "dec" :: (inf.toList ++ (renderOptional st optO outf ++ (renderFlag st optE e ++ [])))
+
+/-- an option value must not be a help request (main.rs prints the help text if `-h` / `--help` occurs ANYWHERE in argv);
+    anything else is fine: a leading '-', an embedded '=', the empty string -/
+def valOk (v : Str) : Prop := v ≠ str "-h" ∧ v ≠ str "--help"
+def optValOk (o : Option Str) : Prop := ∀ v, o = some v → valOk v
+/-- a free argument must not look like an option -/
+def freeOk (o : Option Str) : Prop := ∀ f, o = some f → isArg f = false
+
+/-- the side conditions under which a request survives rendering and parsing -/
+def Renderable : Request → Prop
+  | .help | .version | .usageError => True
+  | .encrypt inf to fr outf kr _ => freeOk inf ∧ valOk to ∧ valOk fr ∧ optValOk outf ∧ optValOk kr
+  | .decrypt inf to outf kr _ => freeOk inf ∧ valOk to ∧ optValOk outf ∧ optValOk kr
+  | .keyGen outf _ => optValOk outf
+  | .changePass sk _ => isArg sk = false
+  | .extractPub sk _ => isArg sk = false
+  | .passEncrypt inf outf _ => freeOk inf ∧ optValOk outf
+  | .passDecrypt inf outf _ => freeOk inf ∧ optValOk outf
+
+/-! ### `splitEq` -/
+
+theorem splitEq_noeq : ∀ (a : Str), '=' ∉ a → splitEq a = (a, none)
+  | [], _ => rfl
+  | c :: r, h => by
+    have hc : c ≠ '=' := fun h' => h (by simp [h'])
+    have hr : '=' ∉ r := fun h' => h (List.mem_cons_of_mem _ h')
+    simp [splitEq, hc, splitEq_noeq r hr]
+
+/-- the `=` form splits at the FIRST '=': the value may contain further '=' characters -/
+theorem splitEq_append : ∀ (a v : Str), '=' ∉ a → splitEq (a ++ '=' :: v) = (a, some v)
+  | [], v, _ => by simp [splitEq]
+  | c :: r, v, h => by
+    have hc : c ≠ '=' := fun h' => h (by simp [h'])
+    have hr : '=' ∉ r := fun h' => h (List.mem_cons_of_mem _ h')
+    simp [splitEq, hc, splitEq_append r v hr]
+
+/-! ### one step of the scanning loop -/
+
+/-- the option name part of an argument: one or two leading dashes removed -/
+def dashTail (cur : Str) : Str :=
+  match cur with
+  | '-' :: '-' :: t => t
+  | _ :: t => t
+  | [] => []
+
+/-- what the loop does with an option-like argument whose name part splits into `nm` -/
+def scanStep (opts : List OptSpec) (fuel : Nat) (rest : List Str) (m : Matches) (nm : Str × Option Str) : Option Matches :=
+  match findOpt opts nm.1 with
+  | none => none
+  | some id =>
+    match opts[id]? with
+    | none => none
+    | some o =>
+      if o.hasArg then
+        match nm.2 with
+        | some v => scan opts fuel rest { m with vals := m.vals ++ [(id, some v)] }
+        | none =>
+          match rest with
+          | v :: rest' => scan opts fuel rest' { m with vals := m.vals ++ [(id, some v)] }
+          | [] => none
+      else
+        match nm.2 with
+        | some _ => none
+        | none => scan opts fuel rest { m with vals := m.vals ++ [(id, none)] }
+
+theorem scan_succ_cons (opts : List OptSpec) (fuel : Nat) (cur : Str) (rest : List Str) (m : Matches) :
+    scan opts (fuel+1) (cur :: rest) m =
+      if !isArg cur then scan opts fuel rest { m with free := m.free ++ [cur] }
+      else if cur = str "--" then some { m with free := m.free ++ rest }
+      else scanStep opts fuel rest m (splitEq (dashTail cur)) := rfl
+
+theorem scan_free (opts : List OptSpec) (fuel : Nat) (cur : Str) (rest : List Str) (m : Matches) (h : isArg cur = false) :
+    scan opts (fuel+1) (cur :: rest) m = scan opts fuel rest { m with free := m.free ++ [cur] } := by
+  rw [scan_succ_cons]; simp [h]
+
+theorem scan_opt_eq (opts : List OptSpec) (fuel : Nat) (cur : Str) (rest : List Str) (m : Matches)
+    {name v : Str} {id : Nat} {o : OptSpec}
+    (h1 : isArg cur = true) (h2 : cur ≠ str "--") (h3 : splitEq (dashTail cur) = (name, some v))
+    (h4 : findOpt opts name = some id) (h5 : opts[id]? = some o) (h6 : o.hasArg = true) :
+    scan opts (fuel+1) (cur :: rest) m = scan opts fuel rest { m with vals := m.vals ++ [(id, some v)] } := by
+  rw [scan_succ_cons]
+  simp only [h1, Bool.not_true, Bool.false_eq_true, if_false, if_neg h2, h3, scanStep, h4, h5, h6, if_true]
+
+theorem scan_opt_sep (opts : List OptSpec) (fuel : Nat) (cur v : Str) (rest : List Str) (m : Matches)
+    {name : Str} {id : Nat} {o : OptSpec}
+    (h1 : isArg cur = true) (h2 : cur ≠ str "--") (h3 : splitEq (dashTail cur) = (name, none))
+    (h4 : findOpt opts name = some id) (h5 : opts[id]? = some o) (h6 : o.hasArg = true) :
+    scan opts (fuel+1) (cur :: v :: rest) m = scan opts fuel rest { m with vals := m.vals ++ [(id, some v)] } := by
+  rw [scan_succ_cons]
+  simp only [h1, Bool.not_true, Bool.false_eq_true, if_false, if_neg h2, h3, scanStep, h4, h5, h6, if_true]
+
+theorem scan_flag (opts : List OptSpec) (fuel : Nat) (cur : Str) (rest : List Str) (m : Matches)
+    {name : Str} {id : Nat} {o : OptSpec}
+    (h1 : isArg cur = true) (h2 : cur ≠ str "--") (h3 : splitEq (dashTail cur) = (name, none))
+    (h4 : findOpt opts name = some id) (h5 : opts[id]? = some o) (h6 : o.hasArg = false) :
+    scan opts (fuel+1) (cur :: rest) m = scan opts fuel rest { m with vals := m.vals ++ [(id, none)] } := by
+  rw [scan_succ_cons]
+  simp only [h1, Bool.not_true, Bool.false_eq_true, if_false, if_neg h2, h3, scanStep, h4, h5, h6]
+
+theorem scan_nil (opts : List OptSpec) (fuel : Nat) (m : Matches) : scan opts fuel [] m = some m := by
+  cases fuel <;> rfl
+
+/-! ### scanning a rendered block -/
+
+/-- with enough fuel, scanning `args` from `m` continues as scanning `rest` from `m'` (with enough fuel) -/
+def ScanTo (opts : List OptSpec) (args : List Str) (m : Matches) (rest : List Str) (m' : Matches) : Prop :=
+  ∀ fuel, args.length < fuel → ∃ fuel', rest.length < fuel' ∧ scan opts fuel args m = scan opts fuel' rest m'
+
+theorem ScanTo.refl (opts : List OptSpec) (args : List Str) (m : Matches) : ScanTo opts args m args m :=
+  fun fuel h => ⟨fuel, h, rfl⟩
+
+theorem ScanTo.trans {opts : List OptSpec} {a b c : List Str} {m1 m2 m3 : Matches}
+    (h1 : ScanTo opts a m1 b m2) (h2 : ScanTo opts b m2 c m3) : ScanTo opts a m1 c m3 := by
+  intro fuel hf
+  obtain ⟨f1, hf1, e1⟩ := h1 fuel hf
+  obtain ⟨f2, hf2, e2⟩ := h2 f1 hf1
+  exact ⟨f2, hf2, e1.trans e2⟩
+
+theorem ScanTo.done {opts : List OptSpec} {args : List Str} {m m' : Matches} (h : ScanTo opts args m [] m') :
+    scan opts (args.length + 1) args m = some m' := by
+  obtain ⟨f, _, e⟩ := h (args.length + 1) (Nat.lt_succ_self _)
+  rw [e, scan_nil]
+
+/-- what makes option `o` = `opts[id]` parse back from each of its spellings -/
+structure GoodOpt (opts : List OptSpec) (id : Nat) (o : OptSpec) : Prop where
+  get : opts[id]? = some o
+  findLong : findOpt opts o.long = some id
+  findShort : ∀ c, o.short = some c → findOpt opts [c] = some id ∧ c ≠ '-' ∧ c ≠ '='
+  longNe : o.long ≠ []
+  longNoEq : '=' ∉ o.long
+
+/-- the name the scanner extracts from the option token -/
+def tokName (st : Style) (o : OptSpec) : Str :=
+  if st.longNames then o.long
+  else match o.short with
+    | some c => [c]
+    | none => o.long
+
+theorem optTok_facts {opts : List OptSpec} {id : Nat} {o : OptSpec} (g : GoodOpt opts id o) (st : Style) (sfx : Str) :
+    isArg (optTok st o ++ sfx) = true ∧ optTok st o ++ sfx ≠ str "--" ∧ dashTail (optTok st o ++ sfx) = tokName st o ++ sfx ∧
+    findOpt opts (tokName st o) = some id ∧ '=' ∉ tokName st o := by
+  have hlong : isArg ('-' :: '-' :: o.long ++ sfx) = true ∧ '-' :: '-' :: o.long ++ sfx ≠ str "--" ∧
+      dashTail ('-' :: '-' :: o.long ++ sfx) = o.long ++ sfx := by
+    refine ⟨?_, ?_, rfl⟩
+    · cases hl : o.long with
+      | nil => exact absurd hl g.longNe
+      | cons a t => rfl
+    · cases hl : o.long with
+      | nil => exact absurd hl g.longNe
+      | cons a t => simp [str]
+  unfold optTok tokName
+  cases st.longNames with
+  | true => exact ⟨hlong.1, hlong.2.1, hlong.2.2, g.findLong, g.longNoEq⟩
+  | false =>
+    simp only [Bool.false_eq_true, if_false]
+    cases hs : o.short with
+    | none => exact ⟨hlong.1, hlong.2.1, hlong.2.2, g.findLong, g.longNoEq⟩
+    | some c =>
+      obtain ⟨hf, hd, he⟩ := g.findShort c hs
+      refine ⟨rfl, ?_, ?_, hf, by simpa using fun h => he h.symm⟩
+      · simp only [str, List.cons_append, List.nil_append]
+        intro h
+        have : c = '-' := by
+          have := congrArg (fun l => l.drop 1 |>.head?) h
+          simpa using this
+        exact hd this
+      · simp only [List.cons_append, List.nil_append, dashTail]
+        split
+        · rename_i h
+          simp only [List.cons.injEq] at h
+          exact absurd h.2.1 hd
+        · rename_i h
+          simp only [List.cons.injEq] at h
+          rw [← h.2]
+        · rename_i h; simp at h
+
+theorem scanTo_free (opts : List OptSpec) (f : Str) (rest : List Str) (m : Matches) (h : isArg f = false) :
+    ScanTo opts (f :: rest) m rest { m with free := m.free ++ [f] } := by
+  intro fuel hf
+  obtain ⟨f', rfl⟩ : ∃ f', fuel = f' + 1 := ⟨fuel - 1, by simp only [List.length_cons] at hf; omega⟩
+  exact ⟨f', by simp only [List.length_cons] at hf; omega, scan_free opts f' f rest m h⟩
+
+theorem scanTo_opt {opts : List OptSpec} {id : Nat} {o : OptSpec} (g : GoodOpt opts id o) (ha : o.hasArg = true)
+    (st : Style) (v : Str) (rest : List Str) (m : Matches) :
+    ScanTo opts (renderOpt st o (some v) ++ rest) m rest { m with vals := m.vals ++ [(id, some v)] } := by
+  intro fuel hf
+  cases he : st.eqForm with
+  | true =>
+    simp only [renderOpt, he, if_true, List.cons_append, List.nil_append, List.length_cons] at hf ⊢
+    obtain ⟨f', rfl⟩ : ∃ f', fuel = f' + 1 := ⟨fuel - 1, by omega⟩
+    obtain ⟨h1, h2, h3, h4, h5⟩ := optTok_facts g st ('=' :: v)
+    exact ⟨f', by omega, scan_opt_eq opts f' _ rest m h1 h2 (by rw [h3]; exact splitEq_append _ _ h5) h4 g.get ha⟩
+  | false =>
+    simp only [renderOpt, he, Bool.false_eq_true, if_false, List.cons_append, List.nil_append, List.length_cons] at hf ⊢
+    obtain ⟨f', rfl⟩ : ∃ f', fuel = f' + 1 := ⟨fuel - 1, by omega⟩
+    obtain ⟨h1, h2, h3, h4, h5⟩ := optTok_facts g st []
+    simp only [List.append_nil] at h1 h2 h3
+    exact ⟨f', by omega, scan_opt_sep opts f' _ v rest m h1 h2 (by rw [h3]; exact splitEq_noeq _ h5) h4 g.get ha⟩
+
+theorem scanTo_optional {opts : List OptSpec} {id : Nat} {o : OptSpec} (g : GoodOpt opts id o) (ha : o.hasArg = true)
+    (st : Style) (v : Option Str) (rest : List Str) (m : Matches) :
+    ScanTo opts (renderOptional st o v ++ rest) m rest
+      { m with vals := m.vals ++ (match v with | none => [] | some v => [(id, some v)]) } := by
+  cases v with
+  | none => simpa [renderOptional] using ScanTo.refl opts rest m
+  | some v => exact scanTo_opt g ha st v rest m
+
+theorem scanTo_flag {opts : List OptSpec} {id : Nat} {o : OptSpec} (g : GoodOpt opts id o) (ha : o.hasArg = false)
+    (st : Style) (b : Bool) (rest : List Str) (m : Matches) :
+    ScanTo opts (renderFlag st o b ++ rest) m rest { m with vals := m.vals ++ (if b then [(id, none)] else []) } := by
+  cases b with
+  | false => simpa [renderFlag] using ScanTo.refl opts rest m
+  | true =>
+    intro fuel hf
+    simp only [renderFlag, renderOpt, if_true, List.cons_append, List.nil_append, List.length_cons] at hf ⊢
+    obtain ⟨f', rfl⟩ : ∃ f', fuel = f' + 1 := ⟨fuel - 1, by omega⟩
+    obtain ⟨h1, h2, h3, h4, h5⟩ := optTok_facts g st []
+    simp only [List.append_nil] at h1 h2 h3
+    exact ⟨f', by omega, scan_flag opts f' _ rest m h1 h2 (by rw [h3]; exact splitEq_noeq _ h5) h4 g.get ha⟩
+
+theorem scanTo_infile (opts : List OptSpec) (inf : Option Str) (rest : List Str) (m : Matches) (h : freeOk inf) :
+    ScanTo opts (inf.toList ++ rest) m rest { m with free := m.free ++ inf.toList } := by
+  cases inf with
+  | none => simpa using ScanTo.refl opts rest m
+  | some f => exact scanTo_free opts f rest m (h f rfl)
+
+/-! ### the option tables of main.rs -/
+
+theorem GoodOpt.of_dec {opts : List OptSpec} {id : Nat} {o : OptSpec}
+    (hget : opts[id]? = some o) (h : findOpt opts o.long = some id ∧
+      (∀ c ∈ o.short.toList, findOpt opts [c] = some id ∧ c ≠ '-' ∧ c ≠ '=') ∧ o.long ≠ [] ∧ '=' ∉ o.long) :
+    GoodOpt opts id o :=
+  ⟨hget, h.1, fun c hc => h.2.1 c (by simp [hc]), h.2.2.1, h.2.2.2⟩
+
+theorem good_enc_T : GoodOpt [optT, optF, optO, optK, optE] 0 optT := GoodOpt.of_dec rfl (by decide)
+theorem good_enc_F : GoodOpt [optT, optF, optO, optK, optE] 1 optF := GoodOpt.of_dec rfl (by decide)
+theorem good_enc_O : GoodOpt [optT, optF, optO, optK, optE] 2 optO := GoodOpt.of_dec rfl (by decide)
+theorem good_enc_K : GoodOpt [optT, optF, optO, optK, optE] 3 optK := GoodOpt.of_dec rfl (by decide)
+theorem good_enc_E : GoodOpt [optT, optF, optO, optK, optE] 4 optE := GoodOpt.of_dec rfl (by decide)
+theorem good_dec_T : GoodOpt [optT, optO, optK, optE] 0 optT := GoodOpt.of_dec rfl (by decide)
+theorem good_dec_O : GoodOpt [optT, optO, optK, optE] 1 optO := GoodOpt.of_dec rfl (by decide)
+theorem good_dec_K : GoodOpt [optT, optO, optK, optE] 2 optK := GoodOpt.of_dec rfl (by decide)
+theorem good_dec_E : GoodOpt [optT, optO, optK, optE] 3 optE := GoodOpt.of_dec rfl (by decide)
+theorem good_oe_O : GoodOpt [optO, optE] 0 optO := GoodOpt.of_dec rfl (by decide)
+theorem good_oe_E : GoodOpt [optO, optE] 1 optE := GoodOpt.of_dec rfl (by decide)
+theorem good_e_E : GoodOpt [optE] 0 optE := GoodOpt.of_dec rfl (by decide)
+
+theorem parseDecrypt_render (st : Style) (inf : Option Str) (to : Str) (outf kr : Option Str) (e : Bool) (hinf : freeOk inf) :
+    parseDecrypt (inf.toList ++ (renderOpt st optT (some to) ++
+      (renderOptional st optO outf ++ (renderOptional st optK kr ++ (renderFlag st optE e ++ []))))) =
+    .decrypt inf to outf kr e := by
+  have hscan := ScanTo.done (ScanTo.trans (scanTo_infile _ inf _ {} hinf)
+    (ScanTo.trans (scanTo_opt good_dec_T rfl st to _ _)
+    (ScanTo.trans (scanTo_optional good_dec_O rfl st outf _ _)
+    (ScanTo.trans (scanTo_optional good_dec_K rfl st kr _ _)
+    (scanTo_flag good_dec_E rfl st e [] _)))))
+  unfold parseDecrypt getopts
+  rw [hscan]
+  cases inf <;> cases outf <;> cases kr <;> cases e <;> rfl
+
+theorem parseEncrypt_render (st : Style) (inf : Option Str) (to fr : Str) (outf kr : Option Str) (e : Bool) (hinf : freeOk inf) :
+    parseEncrypt (inf.toList ++ (renderOpt st optT (some to) ++ (renderOpt st optF (some fr) ++
+      (renderOptional st optO outf ++ (renderOptional st optK kr ++ (renderFlag st optE e ++ [])))))) =
+    .encrypt inf to fr outf kr e := by
+  have hscan := ScanTo.done (ScanTo.trans (scanTo_infile _ inf _ {} hinf)
+    (ScanTo.trans (scanTo_opt good_enc_T rfl st to _ _)
+    (ScanTo.trans (scanTo_opt good_enc_F rfl st fr _ _)
+    (ScanTo.trans (scanTo_optional good_enc_O rfl st outf _ _)
+    (ScanTo.trans (scanTo_optional good_enc_K rfl st kr _ _)
+    (scanTo_flag good_enc_E rfl st e [] _))))))
+  unfold parseEncrypt getopts
+  rw [hscan]
+  cases inf <;> cases outf <;> cases kr <;> cases e <;> rfl
+
+theorem getopts_oe_render (st : Style) (inf : Option Str) (outf : Option Str) (e : Bool) (hinf : freeOk inf) :
+    getopts [optO, optE] (inf.toList ++ (renderOptional st optO outf ++ (renderFlag st optE e ++ []))) =
+      some { vals := [] ++ (match outf with | none => [] | some v => [(0, some v)]) ++ (if e then [(1, none)] else []),
+             free := [] ++ inf.toList } := by
+  have hscan := ScanTo.done (ScanTo.trans (scanTo_infile _ inf _ {} hinf)
+    (ScanTo.trans (scanTo_optional good_oe_O rfl st outf _ _)
+    (scanTo_flag good_oe_E rfl st e [] _)))
+  unfold getopts
+  rw [hscan]
+  cases outf <;> cases e <;> rfl
+
+theorem getopts_e_render (st : Style) (sk : Str) (e : Bool) (hsk : isArg sk = false) :
+    getopts [optE] (sk :: (renderFlag st optE e ++ [])) =
+      some { vals := [] ++ (if e then [(0, none)] else []), free := [] ++ [sk] } := by
+  have hscan := ScanTo.done (ScanTo.trans (scanTo_free [optE] sk _ {} hsk) (scanTo_flag good_e_E rfl st e [] _))
+  unfold getopts
+  rw [hscan]
+  cases e <;> rfl
+
+/-! ### no help request among the rendered tokens -/
+
+def noHelp (l : List Str) : Prop := ∀ a ∈ l, valOk a
+
+theorem contains_help_false {l : List Str} (h : noHelp l) : (l.contains (str "--help") || l.contains (str "-h")) = false := by
+  have h1 : str "--help" ∉ l := fun hm => (h _ hm).2 rfl
+  have h2 : str "-h" ∉ l := fun hm => (h _ hm).1 rfl
+  simp [h1, h2]
+
+theorem noHelp_nil : noHelp [] := fun _ h => absurd h (by simp)
+theorem noHelp_cons {a : Str} {l : List Str} (ha : valOk a) (hl : noHelp l) : noHelp (a :: l) := by
+  intro b hb
+  rcases List.mem_cons.mp hb with rfl | hb
+  · exact ha
+  · exact hl b hb
+theorem noHelp_append {l1 l2 : List Str} (h1 : noHelp l1) (h2 : noHelp l2) : noHelp (l1 ++ l2) := by
+  intro b hb
+  rcases List.mem_append.mp hb with hb | hb
+  · exact h1 b hb
+  · exact h2 b hb
+
+theorem valOk_of_not_isArg {f : Str} (h : isArg f = false) : valOk f := by
+  constructor <;> (intro hf; rw [hf] at h; exact absurd h (by decide))
+
+/-- every spelling of the option token, with any suffix, is not a help request -/
+def TokOk (o : OptSpec) : Prop := ∀ (st : Style) (sfx : Str), valOk (optTok st o ++ sfx)
+
+theorem tokOk_T : TokOk optT := by
+  intro st sfx; obtain ⟨l, a, q⟩ := st; cases l <;> simp [optTok, optT, valOk, str]
+theorem tokOk_F : TokOk optF := by
+  intro st sfx; obtain ⟨l, a, q⟩ := st; cases l <;> simp [optTok, optF, valOk, str]
+theorem tokOk_O : TokOk optO := by
+  intro st sfx; obtain ⟨l, a, q⟩ := st; cases l <;> simp [optTok, optO, valOk, str]
+theorem tokOk_K : TokOk optK := by
+  intro st sfx; obtain ⟨l, a, q⟩ := st; cases l <;> simp [optTok, optK, valOk, str]
+theorem tokOk_E : TokOk optE := by
+  intro st sfx; obtain ⟨l, a, q⟩ := st; cases l <;> simp [optTok, optE, valOk, str]
+
+theorem noHelp_renderOpt {o : OptSpec} (ho : TokOk o) (st : Style) (v : Str) (hv : valOk v) : noHelp (renderOpt st o (some v)) := by
+  unfold renderOpt
+  cases st.eqForm with
+  | true => exact noHelp_cons (ho st _) noHelp_nil
+  | false => exact noHelp_cons (by simpa using ho st []) (noHelp_cons hv noHelp_nil)
+
+theorem noHelp_renderOptional {o : OptSpec} (ho : TokOk o) (st : Style) (v : Option Str) (hv : optValOk v) :
+    noHelp (renderOptional st o v) := by
+  cases v with
+  | none => exact noHelp_nil
+  | some v => exact noHelp_renderOpt ho st v (hv v rfl)
+
+theorem noHelp_renderFlag {o : OptSpec} (ho : TokOk o) (st : Style) (b : Bool) : noHelp (renderFlag st o b) := by
+  cases b with
+  | false => exact noHelp_nil
+  | true => exact noHelp_cons (by simpa using ho st []) noHelp_nil
+
+theorem noHelp_infile (inf : Option Str) (h : freeOk inf) : noHelp inf.toList := by
+  cases inf with
+  | none => exact noHelp_nil
+  | some f => exact noHelp_cons (valOk_of_not_isArg (h f rfl)) noHelp_nil
+
+theorem valOk_word (st : Style) (a b : String) (ha : valOk (str a)) (hb : valOk (str b)) : valOk (word st a b) := by
+  unfold word; cases st.alias <;> simp [ha, hb]
+
+/-- `try_main` once the help check is passed -/
+theorem parseArgv_noHelp (prog cmd : Str) (rest : List Str) (h : noHelp (prog :: cmd :: rest)) :
+    parseArgv (prog :: cmd :: rest) =
+      if cmd = str "-v" ∨ cmd = str "--version" then .version
+      else if cmd = str "enc" ∨ cmd = str "encrypt" then parseEncrypt rest
+      else if cmd = str "dec" ∨ cmd = str "decrypt" then parseDecrypt rest
+      else if cmd = str "key" then parseKey rest
+      else if cmd = str "pass" ∨ cmd = str "password" then parsePassword rest
+      else .usageError := by
+  have := contains_help_false h
+  simp only [parseArgv, this, Bool.false_eq_true, if_false]
+
+/-- **rendering then parsing is the identity** (for every spelling) -/
+theorem parseArgv_render (prog : Str) (hprog : valOk prog) (st : Style) (req : Request) (h : Renderable req) :
+    parseArgv (prog :: render st req) = req := by
+  cases req with
+  | help => simp [render, parseArgv, str]
+  | version =>
+    have hno : noHelp (prog :: (if st.longNames then str "--version" else str "-v") :: []) :=
+      noHelp_cons hprog (noHelp_cons (by cases st.longNames <;> simp [valOk, str]) noHelp_nil)
+    simp only [render]
+    rw [parseArgv_noHelp _ _ _ hno]
+    cases st.longNames <;> simp
+  | usageError =>
+    have hno : noHelp (prog :: str "?" :: []) := noHelp_cons hprog (noHelp_cons (by simp [valOk, str]) noHelp_nil)
+    simp only [render]
+    rw [parseArgv_noHelp _ _ _ hno]
+    simp (decide := true)
+  | decrypt inf to outf kr e =>
+    obtain ⟨h1, h2, h3, h4⟩ := h
+    simp only [render]
+    have hno : noHelp (prog :: word st "decrypt" "dec" :: (inf.toList ++ (renderOpt st optT (some to) ++
+        (renderOptional st optO outf ++ (renderOptional st optK kr ++ (renderFlag st optE e ++ [])))))) :=
+      noHelp_cons hprog (noHelp_cons (valOk_word st _ _ (by simp [valOk, str]) (by simp [valOk, str]))
+        (noHelp_append (noHelp_infile inf h1) (noHelp_append (noHelp_renderOpt tokOk_T st to h2)
+          (noHelp_append (noHelp_renderOptional tokOk_O st outf h3) (noHelp_append (noHelp_renderOptional tokOk_K st kr h4)
+            (noHelp_append (noHelp_renderFlag tokOk_E st e) noHelp_nil))))))
+    rw [parseArgv_noHelp _ _ _ hno, parseDecrypt_render st inf to outf kr e h1]
+    unfold word
+    cases st.alias <;> simp (decide := true)
+  | encrypt inf to fr outf kr e =>
+    obtain ⟨h1, h2, h2', h3, h4⟩ := h
+    simp only [render]
+    have hno : noHelp (prog :: word st "encrypt" "enc" :: (inf.toList ++ (renderOpt st optT (some to) ++
+        (renderOpt st optF (some fr) ++
+        (renderOptional st optO outf ++ (renderOptional st optK kr ++ (renderFlag st optE e ++ []))))))) :=
+      noHelp_cons hprog (noHelp_cons (valOk_word st _ _ (by simp [valOk, str]) (by simp [valOk, str]))
+        (noHelp_append (noHelp_infile inf h1) (noHelp_append (noHelp_renderOpt tokOk_T st to h2)
+          (noHelp_append (noHelp_renderOpt tokOk_F st fr h2')
+          (noHelp_append (noHelp_renderOptional tokOk_O st outf h3) (noHelp_append (noHelp_renderOptional tokOk_K st kr h4)
+            (noHelp_append (noHelp_renderFlag tokOk_E st e) noHelp_nil)))))))
+    rw [parseArgv_noHelp _ _ _ hno, parseEncrypt_render st inf to fr outf kr e h1]
+    unfold word
+    cases st.alias <;> simp (decide := true)
+  | keyGen outf e =>
+    simp only [render]
+    have hno : noHelp (prog :: str "key" :: word st "generate" "gen" :: (renderOptional st optO outf ++ (renderFlag st optE e ++ []))) :=
+      noHelp_cons hprog (noHelp_cons (by simp [valOk, str])
+        (noHelp_cons (valOk_word st _ _ (by simp [valOk, str]) (by simp [valOk, str]))
+          (noHelp_append (noHelp_renderOptional tokOk_O st outf h) (noHelp_append (noHelp_renderFlag tokOk_E st e) noHelp_nil))))
+    have hg := getopts_oe_render st none outf e (fun f hf => by cases hf)
+    simp only [Option.toList, List.nil_append] at hg
+    rw [parseArgv_noHelp _ _ _ hno]
+    have hw : word st "generate" "gen" = str "gen" ∨ word st "generate" "gen" = str "generate" := by
+      unfold word; cases st.alias <;> simp
+    simp (decide := true) only [if_false, if_true, parseKey, hw, hg]
+    cases outf <;> cases e <;> rfl
+  | changePass sk e =>
+    simp only [render]
+    have hno : noHelp (prog :: str "key" :: str "change-pass" :: sk :: (renderFlag st optE e ++ [])) :=
+      noHelp_cons hprog (noHelp_cons (by simp [valOk, str]) (noHelp_cons (by simp [valOk, str])
+        (noHelp_cons (valOk_of_not_isArg h) (noHelp_append (noHelp_renderFlag tokOk_E st e) noHelp_nil))))
+    rw [parseArgv_noHelp _ _ _ hno]
+    simp (decide := true) only [if_false, if_true, parseKey, getopts_e_render st sk e h]
+    cases e <;> rfl
+  | extractPub sk e =>
+    simp only [render]
+    have hno : noHelp (prog :: str "key" :: str "extract-pub" :: sk :: (renderFlag st optE e ++ [])) :=
+      noHelp_cons hprog (noHelp_cons (by simp [valOk, str]) (noHelp_cons (by simp [valOk, str])
+        (noHelp_cons (valOk_of_not_isArg h) (noHelp_append (noHelp_renderFlag tokOk_E st e) noHelp_nil))))
+    rw [parseArgv_noHelp _ _ _ hno]
+    simp (decide := true) only [if_false, if_true, parseKey, getopts_e_render st sk e h]
+    cases e <;> rfl
+  | passEncrypt inf outf e =>
+    obtain ⟨h1, h3⟩ := h
+    simp only [render]
+    have hno : noHelp (prog :: word st "password" "pass" :: word st "encrypt" "enc" ::
+        (inf.toList ++ (renderOptional st optO outf ++ (renderFlag st optE e ++ [])))) :=
+      noHelp_cons hprog (noHelp_cons (valOk_word st _ _ (by simp [valOk, str]) (by simp [valOk, str]))
+        (noHelp_cons (valOk_word st _ _ (by simp [valOk, str]) (by simp [valOk, str]))
+          (noHelp_append (noHelp_infile inf h1) (noHelp_append (noHelp_renderOptional tokOk_O st outf h3)
+            (noHelp_append (noHelp_renderFlag tokOk_E st e) noHelp_nil)))))
+    rw [parseArgv_noHelp _ _ _ hno]
+    have hg := getopts_oe_render st inf outf e h1
+    unfold word at hg ⊢
+    cases st.alias <;> simp (decide := true) only [if_false, if_true, parsePassword, hg] <;>
+      cases inf <;> cases outf <;> cases e <;> rfl
+  | passDecrypt inf outf e =>
+    obtain ⟨h1, h3⟩ := h
+    simp only [render]
+    have hno : noHelp (prog :: word st "password" "pass" :: word st "decrypt" "dec" ::
+        (inf.toList ++ (renderOptional st optO outf ++ (renderFlag st optE e ++ [])))) :=
+      noHelp_cons hprog (noHelp_cons (valOk_word st _ _ (by simp [valOk, str]) (by simp [valOk, str]))
+        (noHelp_cons (valOk_word st _ _ (by simp [valOk, str]) (by simp [valOk, str]))
+          (noHelp_append (noHelp_infile inf h1) (noHelp_append (noHelp_renderOptional tokOk_O st outf h3)
+            (noHelp_append (noHelp_renderFlag tokOk_E st e) noHelp_nil)))))
+    rw [parseArgv_noHelp _ _ _ hno]
+    have hg := getopts_oe_render st inf outf e h1
+    unfold word at hg ⊢
+    cases st.alias <;> simp (decide := true) only [if_false, if_true, parsePassword, hg] <;>
+      cases inf <;> cases outf <;> cases e <;> rfl
+
+
+/-! ### UTF-8 -/
+
+/-- decoding the UTF-8 encoding of a string gives the string back (so a keyring file written as `utf8 text` reads as `text`) -/
+theorem utf8Decode_utf8 (s : Str) : utf8Decode (utf8 s) = some s := by
+  have hb : (⟨(utf8 s).toArray⟩ : ByteArray) = s.utf8Encode := by
+    apply ByteArray.ext
+    simp [List.utf8Encode, utf8]
+  unfold utf8Decode
+  rw [hb]
+  have hv : s.utf8Encode.IsValidUTF8 := ByteArray.isValidUTF8_utf8Encode
+  simp only [String.fromUTF8?, hv, dite_true, Option.map_some, Option.some.injEq]
+  have : String.fromUTF8 s.utf8Encode hv = String.ofList s := rfl
+  rw [this, String.toList_ofList]
+
 end Cli
 end Kestrel
